@@ -252,6 +252,22 @@ fn run_agg(plan: &Plan, lib: &dyn Lib, rec: &mut Rec) {
     }
     let honest_expect = !(scheme == 0 && has_repeat);
     decide(rec, &exact, "exact-list", Some(honest_expect));
+    // the same list handed over by an iterator whose closure runs ANOTHER aggregate verification (Basic, two entries) or a
+    // signature verification for each entry before yielding it: library calls nested in the call — same decision
+    if exact.len() <= 12 {
+        for nested in [2u8, 3] {
+            let mut a: Vec<&[u8]> = vec![&agg, std::slice::from_ref(&nested)];
+            let dummy: Vec<Vec<u8>> = exact.iter().map(|_| ss[0].sig[1..].to_vec()).collect();
+            for (i, (pk, m)) in exact.iter().enumerate() {
+                a.push(pk);
+                a.push(m);
+                a.push(&dummy[i]);
+            }
+            let o = rec.call(lib, g, Op::AggVerifyReentrant, &a);
+            rec.fault("library-call-nested-in-library-call");
+            rec.expect("C06", if honest_expect { "exact-list-verifies" } else { "repeated-message-rejected-in-basic" }, o.is_ok() == honest_expect, || format!("exact-list nested-call-kind-{} scheme={} g={} | n={} repeated_message={}: with a library call nested in the iterator the verifier says {}, expected {}", nested, sch, g.name(), exact.len(), has_repeat, o.kind(), if honest_expect { "accept" } else { "reject" }));
+        }
+    }
     // any order
     let mut perm = exact.clone();
     x.shuffle(&mut perm);
@@ -402,7 +418,17 @@ fn run_multi(plan: &Plan, lib: &dyn Lib, rec: &mut Rec) {
     let verify_with = |rec: &mut Rec, keys: &[Vec<u8>], m: &[u8]| -> bool {
         let args: Vec<&[u8]> = keys.iter().map(|k| k.as_slice()).collect();
         let Some(mpk) = rec.call(lib, g, Op::MultiPk, &args).first().map(|v| v.to_vec()) else { return false };
-        rec.call(lib, g, Op::MultiVerify, &[&ms, &mpk, m]).is_ok()
+        let plain = rec.call(lib, g, Op::MultiVerify, &[&ms, &mpk, m]).is_ok();
+        if scheme == 2 {
+            // the verifier that takes the LIST of signer keys (the proof-of-possession scheme's multi_sig_verify): the same
+            // decision for the same key multiset — a key listed twice counts twice
+            let mut a2: Vec<&[u8]> = vec![&ms, m];
+            a2.extend(keys.iter().map(|k| k.as_slice()));
+            let o = rec.call(lib, g, Op::MultiSigVerifyKeys, &a2);
+            let distinct = { let mut d: Vec<&Vec<u8>> = keys.iter().collect(); d.sort(); d.dedup(); d.len() };
+            rec.expect("C07", "key-list-verifier-agrees-with-accumulated-key", o.is_ok() == plain, || format!("multi_sig_verify scheme={} g={} | {} keys ({} distinct): the key-list verifier says {}, verification against the accumulated key says {}", sch, g.name(), keys.len(), distinct, o.kind(), if plain { "ok" } else { "rej" }));
+        }
+        plain
     };
     // exactly the accumulated signers (a duplicated contribution must be reflected in the key set)
     let exact = pk_of(&arrived);
